@@ -9,6 +9,7 @@ directories is a violation; (3) fault enumeration: the k-th filesystem call made
 with ENOENT/EACCES/EIO/EISDIR - the answer must stay a non-breaking 403/404 (an overlapping second
 static application is still consulted), never a 500 or an escaping exception; (4) conditional requests."""
 import os
+import zlib
 import sys
 import errno
 import shutil
@@ -40,7 +41,7 @@ ASSUMPTIONS = ['faults are injected into filesystem calls made until the applica
 REQUIRED_REACH = ['served-and-compared', 'canonical-file-served', 'escape:dotdot-refused', 'escape:absolute-refused',
                   'escape:secret-path-pieces-refused', 'noncanonical-contained', 'fault-injected', 'fault-on-every-call-about-one-file', 'clean-request-after-fault', 'clean-request-after-fault:name-in-two-search-paths', 'fallthrough-to-second-app', '304-observed', 'first-search-path-wins',
                   'audit-opens-seen', 'root-spelled:trailing-slash', 'root-spelled:dot-segment', 'root-spelled:dotdot-detour', 'root-spelled:double-slash',
-                  'root-spelled:relative', 'names-that-normalisation-would-rewrite', 'mode:redirect', 'mode:rewrite', 'mode:strict']
+                  'root-spelled:relative', 'names-that-normalisation-would-rewrite', 'conditional-on-directory', 'conditional-on-missing', 'mode:redirect', 'mode:rewrite', 'mode:strict']
 NSHARDS = 16
 ERRNOS = [errno.ENOENT, errno.EACCES, errno.EIO, errno.EISDIR]
 
@@ -107,9 +108,21 @@ class Tree(object):
                           # names that Unicode normalisation would rewrite, next to their composed namesakes (other bytes)
                           ('re\u0301sume\u0301.txt', 'text'), ('r\u00e9sum\u00e9.txt', 'text'), ('units/10\u212b.dat', 'binary'),
                           ('units/10\u00c5.dat', 'binary'), ('u\u0308bersicht/menu\u0308.html', 'text'), ('cafe\u0301.txt', 'text'),
-                          ('5\u2126.dat', 'text')]:
+                          ('5\u2126.dat', 'text'),
+                          # '..' inside a name is not a parent reference
+                          ('release..notes.txt', 'text'), ('v1..2/readme.txt', 'text'), ('sub/..settings', 'text'), ('sub/.../deep.bin', 'binary'),
+                          ('sub/trailing..', 'text'), ('a..', 'text'), ('...', 'text')]:
             put(os.path.join(self.root1, rel), kind)
+        # files written just now, and one whose clock is ahead: their Last-Modified is as good as any other
+        import time as _time
+        now = _time.time()
+        for rel, t in [('fresh.txt', now), ('fresh/half-second-old.css', now - 0.5), ('ahead.txt', now + 3600), ('fresh/just.bin', now - 0.01)]:
+            put(os.path.join(self.root1, rel), 'text', mtime=t)
+        # a directory in the first root whose name is a regular file's in the second
+        put(os.path.join(self.root1, 'shadow', 'inner.txt'))
+        put(os.path.join(self.root1, 'guide.d', 'x', 'deep.txt'))
         for rel, kind in [('both.txt', 'text'), ('only2.txt', 'text'), ('sub/c.html', 'text'), ('sub/only2.css', 'text'),
+                          ('shadow', 'text'), ('guide.d/x', 'binary'),
                           ('caf\u00e9.txt', 'text'), ('5\u03a9.dat', 'text')]:
             put(os.path.join(self.root2, rel), kind)
         os.makedirs(os.path.join(self.root1, 'emptydir'), exist_ok=True)
@@ -287,6 +300,16 @@ def judge(sh, cfg, segs, record=None, faulted=False):
         else:
             bad('file-not-served', 'status %s for the regular file %s at its relative path' % (ex.status, hit[0]))
         return ex, kind
+    if ex.status in (403, 404) and target is not None:
+        # nothing to serve here - whatever validators the client sends along (a directory has a modification time too)
+        is_dir = any(os.path.isdir(os.path.join(r, target)) for r in cfg.roots)
+        if is_dir or zlib.crc32(repr(segs).encode()) % 23 == 0:
+            exc_, _ = serve(cfg, segs, headers={'If-Modified-Since': 'Fri, 01 Jan 2100 00:00:00 GMT'})
+            if exc_.exc is not None or exc_.status != ex.status:
+                bad('conditional-request-on-a-non-file', 'status %s without validators, %s with If-Modified-Since in the future%s'
+                    % (ex.status, exc_.status, ' (a directory)' if is_dir else ''))
+                return ex, kind
+            sh.hit('conditional-on-directory' if is_dir else 'conditional-on-missing')
     if kind == 'canonical' and hit is not None:
         sh.hit('canonical-file-served')
     elif kind == 'contained':
